@@ -140,11 +140,16 @@ class Scenario:
         self.transport, self.keep_alive, self.T, self.retries = transport, keep_alive, T, retries
         self.count, self.register = count, register
         self.tcp = transport == "tcp"
+        self.aa55 = transport == "aa55"     # ES family: AA55 framing over UDP
 
     def params(self):
         return {"transport": self.transport, "keep_alive": self.keep_alive, "T": self.T, "retries": self.retries}
 
     def make_inverter(self, M, comm_addr=0):
+        if self.aa55:
+            inv = M.es.ES("10.0.0.1", 8899, comm_addr, self.T, self.retries)
+            inv.set_keep_alive(self.keep_alive)
+            return inv
         inv = M.et.ET("10.0.0.1", 502 if self.tcp else 8899, comm_addr, self.T, self.retries)
         inv.set_keep_alive(self.keep_alive)
         return inv
@@ -176,7 +181,12 @@ class Scenario:
             if name == "send_error":
                 return ERRNOS[script.small(f"errno{req}_{i}", 0, len(ERRNOS) - 1)]
             d = script.delay(i, "d", req)
-            good = valid_response(tcp, data)
+            if self.aa55:
+                body = bytes((7 * x + 3) % 256 for x in range(20))
+                head = bytes([0xAA, 0x55, 0x7F, 0xC0, 0x01, 0x86, len(body)]) + body
+                good = head + sum(head).to_bytes(2, "big")
+            else:
+                good = valid_response(tcp, data)
             if name == "answer":
                 deliver(sock, good, d, "answer")
             elif name == "late_answer":
@@ -190,6 +200,12 @@ class Scenario:
                 else:
                     bad[-1] ^= 0x01
                 deliver(sock, bytes(bad), d, "garbage")
+            elif name == "exception" and self.aa55:
+                # AA55 has no exception frames: an answer of another response type (checksum correct) instead
+                other = bytearray(good)
+                other[5] = 0x89
+                other[-2:] = sum(other[:-2]).to_bytes(2, "big")
+                deliver(sock, bytes(other), d, "garbage")
             elif name == "exception":
                 code = script.small(f"exc{req}_{i}", self.exc_range[0], self.exc_range[1])
                 deliver(sock, bytes(exception_response(tcp, data, code)) if not tcp else
